@@ -24,7 +24,7 @@ PROPS = {
             "ispec.buildspec), and each specification hands its setup function exactly the named fields that function can "
             "take; (R-DECODE) ispec.decode guards, slices and records the fixed part with one and the same bound and hands variable-length specs the whole rest of the input. Does NOT decide that buildspec computes fix/mask/extractors as documented for arbitrary format strings (interpreter behaviour)."
         ),
-        rules=[(R_spec.r_fmt, Q), (R_spec.r_sig, Q), (R_spec.r_decode, Q), (R_spec.r_dupfmt, T)],
+        rules=[(R_spec.r_fmt, Q), (R_spec.r_sig, Q), (R_spec.r_decode, Q)],
         exhaustive=True,
         level_text="partial (data half): every one of the ~5170 shipped ispec format strings is checked, exhaustively, to be a well-formed sentence of the documented format language and to deliver exactly the keyword arguments its setup function accepts; static table/signature cross-check, so it covers all specifications where the tests decode ~150 words",
         level_note="Trusted: CPython ast; vstat's format interpreter (written from the ispec docstring, validated once against buildspec's fix/mask on all 5073 importable specs by tools/validate_ispecmodel.py). Not decided: that ispec.buildspec/decode themselves extract the documented bits for all words and both fetch endiannesses.",
@@ -43,7 +43,7 @@ PROPS = {
             "read but never stored, (4) spec/setup-function keyword mismatches (TypeError on every matching word). "
             "Does NOT decide totality over all byte strings (type errors, KeyError on computed keys, arithmetic on wrong kinds)."
         ),
-        rules=[(R_c17.r_import_c17, Q), (R_c17.r_name_c17, Q), (R_c17.r_modattr_c17, Q), (R_c17.r_priv_c17, Q), (R_spec.r_sig, Q), (R_spec.r_dupfmt, T)],
+        rules=[(R_c17.r_import_c17, Q), (R_c17.r_name_c17, Q), (R_c17.r_modattr_c17, Q), (R_c17.r_priv_c17, Q), (R_c17.r_arity_c17, Q), (R_c17.r_dupkey_c17, Q), (R_c17.r_unbound_c17, T), (R_spec.r_sig, Q), (R_spec.r_dupfmt, Q)],
         level_text="partial: static scope/signature analysis over every function reachable from decode, format and execute entry points of all ISAs (~3000+ functions); each report is a definite NameError/AttributeError/TypeError for every input that reaches the line; the tests decode ~150 words and execute a handful of semantics",
         level_note="Trusted: CPython ast; by-name callee resolution (no type inference), so attribute typos on non-module objects and implicit exceptions (IndexError/KeyError/TypeError on values) are out of reach. Unresolvable namespaces and deliberate bare-name crash markers are listed as undecided, not alarmed.",
         technique="static scope resolution + call-graph reachability + spec/signature cross-check over the AST",
@@ -76,7 +76,7 @@ PROPS = {
             "merge / mergeparts loops transfer every object (no path through a loop body drops the element); (R-ENDTAG) every datadiv/mo construction and byte slicing in memory.py tags bytes with the endianness of the object they were cut from (or with the caller's argument for the caller's data). "
             "Does NOT decide the overlap arithmetic of addtomap/setpart/getpart or endianness slicing (byte-for-byte equality)."
         ),
-        rules=[(R_c08.r_cache, Q), (R_c08.r_xfer_c08, Q), (R_c08.r_endtag, Q)],
+        rules=[(R_c08.r_cache, Q), (R_c08.r_xfer_c08, Q), (R_c08.r_endtag, Q), (R_cas.r_rebuild, Q)],
         level_text="partial: must-pass-through on the CFG of every function that edits a zone map (8 functions, 13 edit sites) and path enumeration over 5 transfer loops; covers all paths including the rarely taken ones (empty map, j==i, TypeError merge fallback) that the 4 memory tests do not reach",
         level_note="Trusted: refresher summaries are one-level and limited to MemoryZone/MemoryMap/mapper (restruct & co); the emptiness early-return idiom of restruct is accepted; exception exits are not required to refresh; receivers of `_map` outside MemoryZone are identified by attribute name.",
         technique="must-pass-through (post-dominance) on statement CFGs + path enumeration of transfer loops",
@@ -129,7 +129,7 @@ PROPS = {
             "constructors/__setstate__ within cas/expressions.py, cas/mapper.py, system/memory.py, system/core.py, and every exp "
             "subclass constructor assigns size and sf on every normal path. Does NOT decide comp tiling, slice arithmetic, widths through eval."
         ),
-        rules=[(R_cas.r_width, Q), (R_cas.r_width_fields, Q), (R_cas.r_sizeimm, Q)],
+        rules=[(R_cas.r_width, Q), (R_cas.r_width_fields, Q), (R_cas.r_rebuild, Q), (R_cas.r_sizeimm, Q)],
         level_text="partial: guarded-return x width-class table check over the rewrite helpers, who-may-write scan of `.size`, definite-assignment on the CFG of the 16 exp constructors",
         level_note="Trusted: provenance classification of receivers (parameter / read-out-of-parameter / fresh constructor result / unknown); unknown receivers are undecided. Stores of `.size` in amoco/arch are handled under C10 (R-SHMUT).",
         technique="guarded-return x table check, who-may-write effect scan, definite assignment on CFG",
